@@ -51,7 +51,10 @@ def initial_tree():
         {"path": "d/a.txt", "data": "alpha\n", "mtime": T0},
         {"path": "d/b.html", "data": "<html><title>Bee</title></html>\n", "mtime": T0 + 1},
         {"path": "d/sub", "kind": "dir", "mtime": T0 + 2},
-        {"path": "d/a.txt.abstract", "data": "about a\n", "mtime": T0},
+        {"path": "d/a.txt.abstract", "data": "about a\nName=Looks like a link\nPath=/nowhere\nType=1\n", "mtime": T0},
+        {"path": "d/empty.txt", "data": "", "mtime": T0 + 3},
+        {"path": "d/.Links", "data": "Name=Port zero\nPath=/pz\nHost=zero.example\nPort=0\nType=1\n\n"
+                                     "Name=Blank host\nPath=/bh\nHost=\nPort=7070\nType=0\n", "mtime": T0 + 4},
     ]
 
 
@@ -59,7 +62,7 @@ class DirState:
     """What the harness believes is in /d (only used to generate valid mutations)."""
 
     def __init__(self):
-        self.files = {"a.txt", "b.html"}
+        self.files = {"a.txt", "b.html", "empty.txt"}
         self.dirs = {"sub"}
         self.abstracts = {"a.txt"}
         self.names = False
@@ -103,7 +106,8 @@ class DirState:
                     continue
                 n = rng.choice(free)
                 self.files.add(n)
-                return kind, [{"do": "write", "path": "d/" + n, "data": "x" * rng.randrange(0, 3000), "mtime": self.tick()}]
+                return kind, [{"do": "write", "path": "d/" + n, "data": "x" * rng.choice([0, 0, 1, rng.randrange(0, 3000)]),
+                               "mtime": self.tick()}]
             if kind == "delete" and self.files:
                 n = rng.choice(sorted(self.files))
                 self.files.discard(n)
@@ -139,6 +143,14 @@ class DirState:
                     blocks.append(b)
                 if rng.random() < 0.3:
                     blocks.append("Name=Elsewhere\nPath=/other\nHost=remote.example\nPort=70\nType=1\n")
+                if rng.random() < 0.5:
+                    # fields that are set but falsy / unusual: port 0, blank host, blank name, number 0
+                    blocks.append(rng.choice([
+                        "Name=Port zero\nPath=/pz\nHost=zero.example\nPort=0\nType=1\n",
+                        "Name=Blank host\nPath=/bh\nHost=\nPort=7070\nType=0\n",
+                        "Name=\nPath=/blankname\nHost=h.example\nPort=70\nType=0\n",
+                        "Name=Numbered zero\nPath=./a.txt\nNumb=0\n",
+                        "Name=Both\nPath=/both\nHost=\nPort=0\nType=1\nAbstract=\n"]))
                 if not blocks:
                     continue
                 self.names = True
@@ -149,8 +161,11 @@ class DirState:
                     self.abstracts.discard(n)
                     return kind, [{"do": "unlink", "path": "d/" + n + ".abstract"}]
                 self.abstracts.add(n)
-                return kind, [{"do": "write", "path": "d/" + n + ".abstract",
-                               "data": "abstract %d of %s\nsecond line\n" % (rng.randrange(1000), n)}]
+                body = "abstract %d of %s\nsecond line\n" % (rng.randrange(1000), n)
+                if rng.random() < 0.4:
+                    # free text that happens to look like link-file lines
+                    body += "Name=Phantom %d\nPath=/phantom\nType=1\nHost=ghost.example\nPort=70\n" % rng.randrange(100)
+                return kind, [{"do": "write", "path": "d/" + n + ".abstract", "data": body}]
             if kind == "mkdir":
                 free = [n for n in DIRS if n not in self.dirs]
                 if not free:
@@ -186,6 +201,8 @@ def gen_history(rng, life, nops):
             ops.append({"op": "sleep", "ms": rng.randrange(20, 400)})
         elif x < 0.68:
             ops.append({"op": "probe", "key": rng.choice(PROBES)[0]})
+        elif x < 0.74:
+            ops.append({"op": "damage", "frac": rng.choice([0.0, rng.random(), rng.random(), 0.999])})
         else:
             ops.append({"op": "list", "key": rng.choice(PROTOKEYS)[0]})
     return ops
@@ -242,6 +259,9 @@ def digest_events(job, results):
         if r["op"] in ("init", "mut"):
             snaps.append(r["refs"])
             events.append({"kind": "mut", "tv": r["now_ms"] + 1000 * r["shift_s"], "snap": len(snaps) - 1})
+        elif r["op"] == "damage":
+            if r["cut"] is not None:
+                events.append({"kind": "damage", "tv": r["now_ms"] + 1000 * r["shift_s"], "cut": r["cut"], "size": r["size"]})
         elif r["op"] in ("list", "probe"):
             e = dict(r)
             e["kind"] = r["op"]
@@ -274,6 +294,8 @@ def coq_case(life, events, snaps, rep=True):
             kops.append("KMut %d" % e["snap"])
         elif e["kind"] == "probe":
             kops.append("KProbe %d" % PROBEIDX[e["key"]])
+        elif e["kind"] == "damage":
+            kops.append("KDamage")
         else:
             kops.append("KList %d" % KEYIDX[e["key"]])
             cands = [i for i, refs in enumerate(snaps) if refs[e["key"]]["hash"] == e["hash"]]
@@ -300,6 +322,9 @@ def oracle(life, events, snaps):
     for i, e in enumerate(events):
         if e["kind"] == "mut":
             current = e["snap"]
+            continue
+        if e["kind"] == "damage":
+            last_write = None           # the entry is gone: whatever is served next must be generated afresh
             continue
         t = e["tv"]
         key = e["key"]
@@ -398,6 +423,9 @@ def evaluate(chk, done, tier):
                 current = e["snap"]
                 stats["mutations"] += 1
                 continue
+            if e["kind"] == "damage":
+                stats["cache_files_cut_off"] = stats.get("cache_files_cut_off", 0) + 1
+                continue
             if e["kind"] == "probe":
                 stats["non_listing_requests"] = stats.get("non_listing_requests", 0) + 1
                 chk.count((hi, e["tv"], e["key"]), nontrivial=(e["before"] is not None))
@@ -456,7 +484,8 @@ def run(tier):
                             "<file>.abstract; whole-second clock advances on both sides of the lifetime realised with os.utime on "
                             "EVERY timestamp of the tree, sub-second ones by sleeping; listings of the directory through 10 protocol "
                             "syntaxes incl. Gopher+ `$` writers followed by other readers; non-listing requests HTTP HEAD and "
-                            "Gopher+ `!` on the directory) for lifetimes 0, 2, 180 on real scratch "
+                            "Gopher+ `!` on the directory; the cache file cut off at a random byte; trees with zero-length files, "
+                            "link blocks with Port=0 / blank Host= / blank Name=, abstracts that look like link-file lines) for lifetimes 0, 2, 180 on real scratch "
                             "directories; each response mapped to the set of directory snapshots whose cacheless listing it "
                             "equals and compared with fold_left step evaluated in Coq; non-trivial = a hit, or a miss that "
                             "replaced an existing cache file")
@@ -471,7 +500,8 @@ def run(tier):
         "(os.utime on all files and directories; ctimes cannot be set); no clock hook; absolute Mod-Date values masked",
         "the directory's own title/abstract/mtime are read afresh by every request and are not part of the cached entry list "
         "(HTTP Last-Modified masked; the directory's own .abstract is not mutated)",
-        "cacheless reference listings come from the same code with an unwritable cache path",
+        "cacheless reference listings come from the same code with an unwritable cache path, run on a mirror of the tree "
+        "(same mutations and ageing) in which no cache file ever exists",
     ]
     return chk.finish("proof")
 
